@@ -164,8 +164,13 @@ def c02_r3(ctx, f):
                 names = {lvs[0]: "j", g[1]: "i"}
                 exp_src = C(256) - elen + j
                 exp_idx = D0 + j * (g1c + g2c) + i + (C(0) if g[0] == 1 else g1c)
-                ok = sidx == exp_src and idx == exp_idx and jh == elen - C(1)
                 ec_seen.append(g[0])
+                if jh is None or not only_known(jh, vocab | {256}):
+                    # the trip count is written with something outside the vocabulary (min/max/helper): not an accusation;
+                    # C02.R4 decides the resulting sequence exactly
+                    ctx.abstain(rid, "EC loop bound of group %d outside the vocabulary: j < %s" % (g[0], jh.show(names) if jh else "?"), fn.where(pt))
+                    jh = elen - C(1)
+                ok = sidx == exp_src and idx == exp_idx and jh == elen - C(1)
                 ctx.check(rid, ok, "%s/ec-interleave/group%d" % (fn.path, g[0]), fn.where(pt), fn.path, "EC store of group %d" % g[0],
                           "EC codeword j of block b is not stored at data_total + j*blocks + b, read from remainder position 256-len(g)+j, "
                           "for j < len(g)-1",
@@ -1054,3 +1059,153 @@ def c07_r2(ctx, f):
 def _pretty(p, names):
     s = p.show(names)
     return s if len(s) < 400 else s[:400] + "..."
+
+
+# ---------------------------------------------------------------------------
+# C11.R7 every candidate starts from the same placed codewords
+# ---------------------------------------------------------------------------
+
+def c11_r7(ctx, f):
+    rid = "C11.R7"
+    ctx.rule(rid, "every candidate is masked on a fresh, complete copy of the placed matrix (no state carried between candidates)")
+    fn = anchor_fn(ctx, rid, f, "placement::place_on_matrix")
+    if not fn:
+        return
+    mk = [c for c in fn.calls("datamasking::mask") if fn.in_loop(c.block)]
+    pl = fn.calls("placement::place_on_matrix_data")
+    if len(mk) != 1 or len(pl) != 1:
+        ctx.anchor_missing(rid, "one mask call inside the selection loop and one placement call")
+        return
+    mk, pl = mk[0], pl[0]
+    ctx.analysed(fn, 2)
+    pts = fn.points_to()
+
+    def pointee(op):
+        if op["k"] not in ("copy", "move") or op["p"]["proj"]:
+            return None
+        tg = [o for o in pts.get(op["p"]["l"], ()) if o[0] == "local"]
+        return tg[0][1] if len(tg) == 1 else None
+
+    cand = pointee(mk.args[0])
+    placed = pointee(pl.args[0])
+    if cand is None or placed is None:
+        ctx.abstain(rid, "cannot name the candidate / placed matrix locals", mk.where())
+        return
+    loop = set(fn.natural_loop(_loop_head_of(fn, mk.block)))
+    rd = fn.reaching(cand, mk.point)
+    fresh = [d for d in rd if d.strong and d.point[0] in loop]
+    carried = [d for d in rd if not (d.strong and d.point[0] in loop)]
+
+    def is_clone_of_placed(d):
+        if d.kind == "calldest" and (d.call.get("callee") or "").endswith("::clone"):
+            a = d.call["args"][0]
+            return pointee(a) == placed
+        if d.kind == "assign" and d.rv and d.rv["k"] == "use" and d.rv["op"]["k"] in ("copy", "move"):
+            o = d.rv["op"]["p"]
+            return o["l"] == placed and not o["proj"]
+        return False
+
+    if len(rd) == 1 and fresh and is_clone_of_placed(fresh[0]):
+        ctx.ok(rid, "candidate `%s` = clone of placed matrix `%s`, re-created in every iteration" % (
+            fn.local_name(cand), fn.local_name(placed)))
+        return
+    if len(rd) == 1 and fresh:
+        ctx.check(rid, False, fn.path + "/candidate-source", fn.where(fresh[0].point), fn.path, "candidate matrix",
+                  "the candidate masked in the loop is not a copy of the matrix the codewords were placed on",
+                  found=str(fresh[0]))
+        return
+    # state reaches the mask call around the back edge: look for a complete reset inside the loop
+    resets = []
+    for d in rd:
+        if d.kind in ("callmut", "store") and d.call is not None and d.point[0] in loop and d.point != mk.point:
+            nm = d.call.get("callee") or d.call.get("declared") or ""
+            resets.append((d, nm))
+    verdict = None
+    for d, nm in resets:
+        if nm.endswith("::clone_from"):
+            src = pointee(d.call["args"][1])
+            verdict = ("ok", "clone_from") if src == placed else ("bad", "clone_from of another matrix")
+        elif nm.endswith("copy_from_slice") or nm.endswith("clone_from_slice"):
+            cs = [c for c in fn.calls() if c.point == d.point][0]
+            e = strip_refs(fn.canon(cs.args[0], cs.point))
+            rng = _dest_range(fn, cs)
+            if rng is None:
+                verdict = verdict or ("unknown", "copy_from_slice into an unrecognised destination %s" % expr_str(e, fn)[:80])
+            elif rng == "full":
+                verdict = ("ok", "whole backing array")
+            else:
+                lo, hi = rng
+                size = A("size")
+                need = size * size
+                diff = (hi - need)
+                if lo == C(0) and diff.is_const() and diff.const_value() >= 0:
+                    verdict = ("ok", "0 .. %s" % hi.show())
+                elif lo == C(0) and diff.is_const() and diff.const_value() < 0:
+                    verdict = ("bad", "only modules 0 .. %s of size*size are reset" % hi.show())
+                elif lo.is_const() and lo.const_value() > 0:
+                    verdict = ("bad", "modules below %s are not reset" % lo.show())
+                else:
+                    verdict = verdict or ("unknown", "reset range %s .. %s" % (lo.show(), hi.show()))
+    if verdict and verdict[0] == "ok":
+        ctx.ok(rid, "candidate reset in every iteration by %s" % verdict[1])
+    elif verdict and verdict[0] == "bad":
+        ctx.check(rid, False, fn.path + "/candidate-reset", mk.where(), fn.path, "candidate matrix `%s`" % fn.local_name(cand),
+                  "the candidate carries modules toggled for an earlier pattern into the next one: the eight candidates are not the "
+                  "same placed codewords", found=verdict[1], expected="a complete copy of `%s` per candidate" % fn.local_name(placed))
+    elif not resets:
+        ctx.check(rid, False, fn.path + "/candidate-reset", mk.where(), fn.path, "candidate matrix `%s`" % fn.local_name(cand),
+                  "the candidate is created outside the loop and never reset: each pattern is applied on top of the previous ones",
+                  found=[str(d) for d in carried][:4])
+    else:
+        ctx.abstain(rid, "candidate state crosses iterations and its reset is not recognised: %s" % (verdict[1] if verdict else "?"), mk.where())
+
+
+def _loop_head_of(fn, block):
+    """header of the innermost natural loop containing block"""
+    best = None
+    for h in range(fn.n):
+        if not fn.live[h]:
+            continue
+        lp = fn.natural_loop(h)
+        if lp and block in lp and (best is None or len(lp) < len(fn.natural_loop(best))):
+            best = h
+    return best
+
+
+def _dest_range(fn, cs):
+    """destination of x.copy_from_slice(..): 'full' | (lo, hi) polynomials over `size` | None"""
+    def ren(x):
+        u = unname(x)
+        if u[0] == "field" and "size" in repr(x):
+            return "size"
+        return None
+    o = fn.origins(cs.args[0], cs.point, hide_weak=True)
+    if len(o) != 1:
+        return None
+    if o[0].kind == "ref":
+        return "full"
+    if o[0].kind != "call":
+        return None
+    t = o[0].info.call
+    nm = t.get("callee") or t.get("declared") or ""
+    if "index_mut" not in nm and "index" not in nm:
+        return None
+    r = fn.origins(t["args"][1], o[0].point, hide_weak=True)
+    if len(r) != 1:
+        return None
+    if r[0].kind == "const":
+        return "full"  # RangeFull is a zero-sized constant
+    if r[0].kind != "agg":
+        return None
+    rv = r[0].info.rv
+    path = rv.get("path") or ""
+    ops = [poly.normalise(fn.canon(x, r[0].point), ren) for x in rv["ops"]]
+    if path.endswith("RangeFull"):
+        return "full"
+    if path.endswith("RangeTo") and len(ops) == 1:
+        return (C(0), ops[0])
+    if path.endswith("Range") and len(ops) == 2:
+        return (ops[0], ops[1])
+    if path.endswith("RangeFrom") and len(ops) == 1:
+        return None
+    return None
